@@ -40,7 +40,7 @@ var wireDocs = []string{
 func genWire(t *rapid.T) *WireCase {
 	w := &WireCase{Commit: rapid.SampledFrom([]string{"candidate", "candidate", "running"}).Draw(t, "wire-commit"), Doc: rapid.IntRange(0, len(wireDocs)-1).Draw(t, "wire-doc")}
 	for i := 0; i < 4; i++ {
-		w.Replies = append(w.Replies, rapid.SampledFrom([]string{"ok", "ok", "ok", "warning", "error", "error-prefixed"}).Draw(t, "wire-reply"))
+		w.Replies = append(w.Replies, rapid.SampledFrom([]string{"ok", "ok", "ok", "warning", "error", "error-prefixed", "error+warning"}).Draw(t, "wire-reply"))
 	}
 	return w
 }
@@ -54,6 +54,9 @@ func wireReply(kind string, id int) string {
 		return fmt.Sprintf(`<rpc-reply xmlns="urn:ietf:params:xml:ns:netconf:base:1.0" message-id="%d">%s<ok/></rpc-reply>`, id, rpcErr("<rpc-error>", "</rpc-error>", "", "warning"))
 	case "error":
 		return fmt.Sprintf(`<rpc-reply xmlns="urn:ietf:params:xml:ns:netconf:base:1.0" message-id="%d">%s</rpc-reply>`, id, rpcErr("<rpc-error>", "</rpc-error>", "", "error"))
+	case "error+warning":
+		// one reply carrying a warning and an error
+		return fmt.Sprintf(`<rpc-reply xmlns="urn:ietf:params:xml:ns:netconf:base:1.0" message-id="%d">%s%s</rpc-reply>`, id, rpcErr("<rpc-error>", "</rpc-error>", "", "warning"), rpcErr("<rpc-error>", "</rpc-error>", "", "error"))
 	case "error-prefixed":
 		return fmt.Sprintf(`<nc:rpc-reply xmlns:nc="urn:ietf:params:xml:ns:netconf:base:1.0" message-id="%d">%s</nc:rpc-reply>`, id, rpcErr("<nc:rpc-error>", "</nc:rpc-error>", "nc:", "error"))
 	case "error-attr":
@@ -158,4 +161,54 @@ func execWire(w *WireCase) (bool, []string, *vlib.Failure) {
 		return nt, keys(lab), vlib.Failf("C18:wire-error-reporting:"+w.Commit, "%s: rpcs %v; Set returned %v, expected an error: %v", where, ops, setErr, wantErr)
 	}
 	return nt, keys(lab), nil
+}
+
+
+// Stub mode: the real ncTarget over the fake driver, one Set of a fixed document, the request context is cancelled
+// while the driver executes its k-th call (a client that goes away in the middle of a Set). Whatever the target makes
+// of the cancellation, an error after a successful edit-config to the candidate has to be preceded by a discard.
+type StubCase struct {
+	Commit   string       `json:"commit"`
+	CancelAt int          `json:"cancel_at"` // index of the driver call during which the context ends (-1 = before the Set)
+	Fault    vlib.NCFault `json:"fault"`
+}
+
+func genStub(t *rapid.T) *StubCase {
+	s := &StubCase{Commit: rapid.SampledFrom([]string{"candidate", "candidate", "running"}).Draw(t, "stub-commit"), CancelAt: rapid.IntRange(-1, 2).Draw(t, "stub-cancel-at")}
+	if rapid.IntRange(0, 2).Draw(t, "stub-fault") == 1 {
+		s.Fault = genFault(t)
+	}
+	return s
+}
+
+func execStub(sc *StubCase) (bool, []string, *vlib.Failure) {
+	env := vlib.MustEnv()
+	lab := map[string]bool{"stub": true, "stub-" + sc.Commit: true, fmt.Sprintf("context-ends-at-call-%d", sc.CancelAt): true}
+	fake := vlib.NewNCFake()
+	fake.Fault = sc.Fault
+	ctx, cancel := context.WithCancel(context.Background())
+	defer cancel()
+	if sc.CancelAt < 0 {
+		cancel()
+	}
+	fake.OnCall = func(i int) {
+		if i == sc.CancelAt {
+			cancel()
+		}
+	}
+	nco := &config.SBINetconfOptions{CommitDatastore: sc.Commit}
+	sbi := &config.SBI{Type: "netconf", Address: "127.0.0.1", Port: 1, NetconfOptions: nco, ConnectRetry: 24 * time.Hour, Timeout: time.Second}
+	scb := schemaClient.NewSchemaClientBound(vlib.SchemaRef(), env.SchemaClient)
+	nc := target.NewNCTargetWithDriver("c18s", sbi, scb, fake)
+	_, setErr := nc.Set(ctx, wireSource{doc: wireDocs[0]})
+	calls := fake.CallsFrom(0)
+	pending, _, _ := fake.State()
+	where := fmt.Sprintf("commit-datastore=%s, context ends during driver call %d, faults %+v: driver saw %s, Set returned %v", sc.Commit, sc.CancelAt, sc.Fault, seq(calls), setErr)
+	if fake.IsAlive() && sc.Fault.Discard == "" && setErr != nil && len(pending) > 0 {
+		return true, keys(lab), vlib.Failf("C18:leftover-in-candidate:context-ended", "%s; the candidate still holds %d uncommitted edit(s) although the connection is alive and no discard was refused", where, len(pending))
+	}
+	if setErr == nil && sc.Commit != "running" && len(calls) > 0 && len(pending) > 0 {
+		return true, keys(lab), vlib.Failf("C18:success-without-commit:context-ended", "%s; Set reported success with %d uncommitted edit(s) in the candidate", where, len(pending))
+	}
+	return sc.CancelAt >= 0, keys(lab), nil
 }
